@@ -298,3 +298,189 @@ Definition het_frac_by_ranges (rows : list lrow) (ranges : list grange) : option
   | [] => None
   | _ => Some (map (fun rg => het_frac_value (het_flags rows rg)) ranges)
   end.
+
+(* ==== additions of the C18 extension (nothing above this line was changed) ===================== *)
+
+(* ---- baf_by_ranges with ANY summary_func ------------------------------------------------------ *)
+
+(* series2value of into_ranges for an arbitrary summary function f: no hit -> the default (NaN);
+   ONE hit -> that value as it is (f is not called); otherwise f of the hits *)
+Definition s2v_gen (f : list xq -> xq) (hits : list xq) : xq :=
+  match hits with
+  | [] => XNaN
+  | [x] => x
+  | _ => f hits
+  end.
+
+(* `summarize` of baf_by_ranges (above_half is None): f of the hits mirrored in the direction of the
+   majority of THESE hits (vals.median() > 0.5 skips NaN) *)
+Definition summarize_gen (f : list xq -> xq) (hits : list xq) : xq :=
+  f (map (mirror_x (majority_above (finite_of hits))) hits).
+
+Definition baf_by_ranges_gen (f : list xq -> xq) (paired : bool) (rows : list lrow) (ranges : list grange)
+    (above_half : option bool) (boost : bool) : option (list xq) :=
+  let het := heterozygous rows in
+  let src := if boost && paired then boost_assign het else het in
+  match ranges with
+  | [] => None
+  | _ =>
+      match above_half with
+      | Some b => Some (map (fun rg => s2v_gen f (hits_of (mirror_assign b src) rg)) ranges)
+      | None => Some (map (fun rg => s2v_gen (summarize_gen f) (hits_of src rg)) ranges)
+      end
+  end.
+
+(* the summary functions the check runs the code with: np.nanmedian (the default), np.nanmean,
+   np.nanmin, np.nanmax -- each over the non-NaN values, NaN when there is none *)
+Definition nanmedian_x (hits : list xq) : xq :=
+  match median (finite_of hits) with Some m => Fin m | None => XNaN end.
+
+Definition qsum (l : list Q) : Q := fold_right qadd 0%Q l.
+
+Definition nanmean_x (hits : list xq) : xq :=
+  match finite_of hits with
+  | [] => XNaN
+  | fin => Fin (qdiv (qsum fin) (inject_Z (Z.of_nat (length fin))))
+  end.
+
+Definition qmin2 (a b : Q) : Q := if Qle_bool a b then a else b.
+Definition qmax2 (a b : Q) : Q := if Qle_bool a b then b else a.
+
+Definition nanmin_x (hits : list xq) : xq :=
+  match finite_of hits with [] => XNaN | x :: t => Fin (fold_left qmin2 t x) end.
+Definition nanmax_x (hits : list xq) : xq :=
+  match finite_of hits with [] => XNaN | x :: t => Fin (fold_left qmax2 t x) end.
+
+(* ---- the elementwise formulas in IEEE arithmetic (what numpy returns on 0, 1, NaN, inf) --------- *)
+
+(* an IEEE double as the formulas see it: a finite number (exact), +inf, -inf or NaN.  Zero has no
+   sign here: every zero these formulas divide by is +0 (x - x, 0/d, fillna(0.0)). *)
+Inductive xr := RFin (q : Q) | RPInf | RNInf | RNaN.
+
+Definition xr_of_xq (x : xq) : xr :=
+  match x with Fin q => RFin q | PInf => RPInf | XNaN => RNaN end.
+
+(* sign of a non-NaN value *)
+Definition xr_sign (a : xr) : comparison :=
+  match a with RFin q => Qcompare q 0%Q | RPInf => Gt | RNInf => Lt | RNaN => Eq end.
+
+Definition xr_opp (a : xr) : xr :=
+  match a with RFin q => RFin (Qred (- q)) | RPInf => RNInf | RNInf => RPInf | RNaN => RNaN end.
+
+Definition xr_add (a b : xr) : xr :=
+  match a, b with
+  | RNaN, _ => RNaN
+  | _, RNaN => RNaN
+  | RFin x, RFin y => RFin (qadd x y)
+  | RPInf, RNInf => RNaN
+  | RNInf, RPInf => RNaN
+  | RPInf, _ => RPInf
+  | _, RPInf => RPInf
+  | RNInf, _ => RNInf
+  | _, RNInf => RNInf
+  end.
+
+Definition xr_sub (a b : xr) : xr := xr_add a (xr_opp b).
+
+Definition sign_mul (a b : comparison) : xr :=
+  match a, b with
+  | Eq, _ => RNaN
+  | _, Eq => RNaN
+  | Gt, Gt => RPInf
+  | Lt, Lt => RPInf
+  | _, _ => RNInf
+  end.
+
+Definition xr_mul (a b : xr) : xr :=
+  match a, b with
+  | RNaN, _ => RNaN
+  | _, RNaN => RNaN
+  | RFin x, RFin y => RFin (qmul x y)
+  | _, _ => sign_mul (xr_sign a) (xr_sign b)          (* inf * 0 = NaN *)
+  end.
+
+Definition xr_div (a b : xr) : xr :=
+  match a, b with
+  | RNaN, _ => RNaN
+  | _, RNaN => RNaN
+  | RFin x, RFin y =>
+      if Qeq_bool y 0%Q
+      then match Qcompare x 0%Q with Eq => RNaN | Gt => RPInf | Lt => RNInf end     (* x / +0 *)
+      else RFin (qdiv x y)
+  | RFin _, _ => RFin 0%Q                                  (* finite / inf *)
+  | _, RFin y => match Qcompare y 0%Q with Lt => xr_opp a | _ => a end        (* inf / finite, inf / +0 *)
+  | _, _ => RNaN                                            (* inf / inf *)
+  end.
+
+Definition xr_abs (a : xr) : xr :=
+  match a with RFin q => RFin (qabs q) | RPInf => RPInf | RNInf => RPInf | RNaN => RNaN end.
+
+(* a < b; False as soon as one side is NaN *)
+Definition xr_ltb (a b : xr) : bool :=
+  match a, b with
+  | RNaN, _ => false
+  | _, RNaN => false
+  | RFin x, RFin y => Qlt_bool x y
+  | RNInf, RNInf => false
+  | RNInf, _ => true
+  | _, RPInf => match a with RPInf => false | _ => true end
+  | _, _ => false
+  end.
+
+(* _tumor_boost on one element, as numpy evaluates it *)
+Definition boost_ieee (t n : xr) : xr :=
+  let half := RFin VcfDefaults.boost_half in
+  let one := RFin VcfDefaults.boost_one in
+  if xr_ltb t n then xr_div (xr_mul half t) n
+  else xr_sub one (xr_div (xr_mul half (xr_sub one t)) (xr_sub one n)).
+
+(* _mirrored_baf on one element with a given direction, as numpy evaluates it *)
+Definition mirror_ieee (above : bool) (v : xr) : xr :=
+  let c := RFin VcfDefaults.mirror_center in
+  let shift := xr_abs (xr_sub v c) in
+  if above then xr_add c shift else xr_sub c shift.
+
+(* pandas Series.median (NaN skipped) of IEEE values: -inf < finite < +inf; the mean of the two
+   middle values when their number is even (inf + -inf = NaN) *)
+Definition xr_leb (a b : xr) : bool :=
+  match a, b with
+  | RNInf, _ => true
+  | _, RPInf => true
+  | RFin x, RFin y => Qle_bool x y
+  | _, _ => false
+  end.
+
+Fixpoint non_nan (l : list xr) : list xr :=
+  match l with
+  | [] => []
+  | RNaN :: t => non_nan t
+  | x :: t => x :: non_nan t
+  end.
+
+Definition median_r (l : list xr) : xr :=
+  let s := isort xr_leb (non_nan l) in
+  let n := length s in
+  match n with
+  | O => RNaN
+  | _ =>
+      if Nat.even n
+      then xr_div (xr_add (nth (n / 2 - 1) s RNaN) (nth (n / 2) s RNaN)) (RFin (2 # 1))
+      else nth (n / 2) s RNaN
+  end.
+
+(* VariantArray.mirrored_baf over a table that may hold infinite frequencies / TumorBoost values *)
+Definition boost_row_r (r : vrow) : xr :=
+  match v_n r with
+  | Some n => boost_ieee (xr_of_xq (g_freq (v_t r))) (xr_of_xq (g_freq n))
+  | None => RNaN
+  end.
+
+Definition mirrored_baf_r (paired : bool) (rows : list lrow) (above_half : option bool) (boost : bool)
+  : list xr :=
+  let vals := if boost && paired then map (fun lr => boost_row_r (snd lr)) rows
+              else map (fun lr => xr_of_xq (g_freq (v_t (snd lr)))) rows in
+  let above := match above_half with
+               | Some b => b
+               | None => xr_ltb (RFin VcfDefaults.mirror_center) (median_r vals)
+               end in
+  map (mirror_ieee above) vals.
